@@ -9,6 +9,11 @@ fn main() {
         eprintln!("usage: vcheck <property id> [--tier quick|thorough] [--seed N] [--threads N] [--lane NAME] [--verif-dir DIR] [--replay FILE]");
         std::process::exit(2);
     }
+    if args[1] == "--parse-child" {
+        vharness::monitor::install_panic_hook();
+        vharness::props::c01::parse_child_main();
+        return;
+    }
     let prop = args[1].clone();
     let mut tier = match std::env::var("VERIF_TIER").ok().as_deref() {
         Some("thorough") => Tier::Thorough,
